@@ -248,6 +248,11 @@ def coverage(prog, rep, sd: FuncInfo) -> None:
         lam = c.args[0] if c.args else None
         lam_body = None
         if isinstance(lam, ast.Name):
+            # `g = f` copies of a local function are followed
+            r_ = ff.resolved(si.stmt, lam)
+            if isinstance(r_, (ast.Name, ast.Lambda)):
+                lam = r_
+        if isinstance(lam, ast.Name):
             # a local `def f(x): return <expr>` (or `f = lambda x: <expr>`) handed over by name
             defs = [n for n in ast.walk(sd.node) if isinstance(n, ast.FunctionDef) and n.name == lam.id and n is not sd.node]
             lams = [n.value for n in ast.walk(sd.node) if isinstance(n, ast.Assign) and len(n.targets) == 1 and U(n.targets[0]) == lam.id and isinstance(n.value, ast.Lambda)]
@@ -256,6 +261,11 @@ def coverage(prog, rep, sd: FuncInfo) -> None:
                 b_ = [x for x in d.body if not (isinstance(x, ast.Expr) and isinstance(x.value, ast.Constant))]
                 if len(b_) == 1 and isinstance(b_[0], ast.Return) and b_[0].value is not None and len(d.args.args) == 1:
                     lam = ast.Lambda(args=d.args, body=b_[0].value)
+                elif len(d.args.args) == 1 and b_ and isinstance(b_[-1], ast.Return) and b_[-1].value is not None \
+                        and all(isinstance(x, ast.Assign) and len(x.targets) == 1 and isinstance(x.targets[0], ast.Name) for x in b_[:-1]) \
+                        and prog._by_node.get(id(d)) is not None:
+                    # straight-line temporaries, then the result: the result with the temporaries substituted
+                    lam = ast.Lambda(args=d.args, body=facts_for(prog._by_node[id(d)]).resolved(b_[-1], b_[-1].value))
             elif len(lams) == 1 and not defs:
                 lam = lams[0]
         if isinstance(lam, ast.Lambda) and len(lam.args.args) == 1:
